@@ -43,6 +43,11 @@ meta={"property":"$P","source":"independent sub-agent given only the property re
  "pinned_suite_keeps_baseline_passes":{"null":None,"true":True,"false":False}["$SUITE_OK"],"lost_passes":$LOST,
  "check_exit_on_patched_tree":$CODE,"check_output":"""$CHK"""[:3000],
  "ran":["demo on clean scratch worktree of /repo HEAD","demo with patch applied","pinned doctest suite with patch (when --suite)","python -m pennyverif check $P --root <patched scratch worktree>"]}
+try:
+    n=json.load(open("/verif/tools/seed_notes.json")).get("$P-$N")
+    if n: meta["needs_to_manifest"]=n["needs"]; meta["note"]=n["history"]
+except Exception: pass
+meta["breaks_property"]="$P"
 json.dump(meta,open("$OUT/meta.json","w"),indent=1)
 print(json.dumps({k:meta[k] for k in ("demo_exit_clean","demo_exit_patched","patch_applies","pinned_suite_keeps_baseline_passes","check_exit_on_patched_tree")}))
 PY
